@@ -81,6 +81,9 @@ namespace details {
 		void getstr(std::string &out)
 		{
 			size_t n = buffer_.size() -  (epptr() - pptr());
+			// keep only the data: once the put area is reset, a second call
+			// measures the data by buffer_.size() alone
+			buffer_.resize(n);
 			setp(0,0);
 			if(n!=0) {
 				out.assign(&buffer_[0],n);
